@@ -53,6 +53,22 @@ def stream(ctx):
 
 def tie(ctx, model_ok=True):
     res = loadprop.run_stream(ctx, 'C08', stream(ctx), ORACLES)
+    # an exception of another class that left load() while a user hook was on the stack is excused by the oracle as a crash
+    # of the hook itself (misuse of the Node API: the model predicts such crashes as EPy and the tie accepts them).  Where the
+    # MODEL says the helper refuses properly (SeasoningError -> RecognitionError) and the implementation lets another exception
+    # out, the hook used the API as documented and the exception is yatiml's: a finding with the document as input.
+    import yaml
+    import yatiml
+    for d in res.get('disagreements', []):
+        c = d.get('_case')
+        if c is None or c.outcome[0] != 'err':
+            continue
+        e = c.outcome[1]
+        if not isinstance(e, (yatiml.RecognitionError, yaml.YAMLError)) and oracles._raised_in_user_hook(e):
+            res['failing'].append({'signature': f'escapes:{type(e).__name__}:from-helper-called-by-hook',
+                                   'what': f'load raised {type(e).__name__}: {str(e)[:120]} out of a Node helper that a savorize/recognize '
+                                           f'hook called as documented (the model: the helper refuses with SeasoningError) for {c.text!r}',
+                                   'case': {'specs': loadprop._clean(c.specs), 'type': repr(c.tyspec), 'text': c.text}})
     res['rule'] = ('the C01 stream with more sharing, plus token soup over YAML indicators/tags/anchors, single text-level '
                    'mutations of valid documents, and crafted documents (cyclic aliases, explicit core tags on wrong content, '
                    'duplicate/complex/merge keys); non-trivial = a parseable document that made the load fail, or a load that '
